@@ -351,8 +351,10 @@ class FileBufferedCollection(BufferedCollection):
             except (OSError, MetadataError) as err:
                 issues[collection._filename] = err
         # Collections that remain buffered must stay registered even if some
-        # flushes failed, otherwise they are never flushed again.
-        cls._buffered_collections = remaining_collections
+        # flushes failed, otherwise they are never flushed again. The registry
+        # is updated in place because other threads may have registered
+        # collections since it was emptied above.
+        cls._buffered_collections.update(remaining_collections)
         if issues:
             raise BufferedError(issues)
 
